@@ -380,6 +380,47 @@ class Analysis:
                 probs.append((n.lineno, f"bins-array unpacked outside its manager: {ast.unparse(n)}"))
         return probs if bins_vars else None
 
+    ITEMSEQ_MAKERS = {"sorted", "list", "reversed", "tuple", "find_diff", "list_without_items", "copy"}
+
+    def opacity_breaches(self, fn: Fn):
+        """C07, syntactic: the elements of the `items` argument are opaque - they may be passed to valueof / add_item_to_bin, stored, compared
+        for equality, counted; they may NOT be operands of arithmetic or ordering, nor summed / sorted / min-maxed without valueof.
+        Intra-procedural: a name is an item sequence if it is `items` (or a copy / sort / slice / filter of one), an item if it is an element of one."""
+        if "items" not in fn.params and "item" not in fn.params and "sorted_items" not in fn.params:
+            return None
+        seqs = {p for p in fn.params if p in ("items", "sorted_items", "item_names")}
+        elems = {p for p in fn.params if p == "item"}
+        is_seq = lambda e: (isinstance(e, ast.Name) and e.id in seqs) or (isinstance(e, ast.Attribute) and ast.unparse(e) in seqs) or \
+            (isinstance(e, ast.Subscript) and isinstance(e.slice, ast.Slice) and is_seq(e.value)) or \
+            (isinstance(e, ast.Call) and ((isinstance(e.func, ast.Name) and e.func.id in self.ITEMSEQ_MAKERS) or (isinstance(e.func, ast.Attribute) and e.func.attr in ("copy", "keys"))) and
+             e.args and is_seq(e.args[0]) if isinstance(e, ast.Call) and e.args else False) or \
+            (isinstance(e, (ast.ListComp, ast.GeneratorExp)) and isinstance(e.elt, ast.Name) and any(is_seq(g.iter) and isinstance(g.target, ast.Name) and g.target.id == e.elt.id for g in e.generators))
+        is_elem = lambda e: (isinstance(e, ast.Name) and e.id in elems) or (isinstance(e, ast.Subscript) and not isinstance(e.slice, ast.Slice) and is_seq(e.value))
+        for _ in range(3):
+            for n in _walk_fn(fn.node):
+                if isinstance(n, ast.Assign) and len(n.targets) == 1 and isinstance(n.targets[0], (ast.Name, ast.Attribute)):
+                    t = ast.unparse(n.targets[0])
+                    if is_seq(n.value):
+                        seqs.add(t)
+                    elif is_elem(n.value) or (isinstance(n.value, ast.Call) and isinstance(n.value.func, ast.Attribute) and n.value.func.attr == "pop" and is_seq(n.value.func.value)):
+                        elems.add(t)
+                elif isinstance(n, (ast.For, ast.comprehension)) and is_seq(n.iter) and isinstance(n.target, ast.Name):
+                    elems.add(n.target.id)
+        probs = []
+        for n in _walk_fn(fn.node):
+            if isinstance(n, ast.BinOp) and (is_elem(n.left) or is_elem(n.right)):
+                probs.append((n.lineno, f"arithmetic on an item: {ast.unparse(n)[:50]}"))
+            elif isinstance(n, ast.Compare) and any(isinstance(o, (ast.Lt, ast.LtE, ast.Gt, ast.GtE)) for o in n.ops) and any(is_elem(x) for x in [n.left] + n.comparators):
+                probs.append((n.lineno, f"numeric comparison of an item: {ast.unparse(n)[:50]}"))
+            elif isinstance(n, ast.Call) and isinstance(n.func, ast.Name) and n.func.id in ("sum", "abs", "int", "float", "round") and n.args and (is_seq(n.args[0]) or is_elem(n.args[0])):
+                probs.append((n.lineno, f"{n.func.id}() of items instead of their values: {ast.unparse(n)[:50]}"))
+            elif isinstance(n, ast.Call) and isinstance(n.func, ast.Name) and n.func.id in ("sorted", "min", "max") and n.args and is_seq(n.args[0]) and \
+                    not any(k.arg == "key" for k in n.keywords):
+                probs.append((n.lineno, f"{n.func.id}() of items without key=valueof: {ast.unparse(n)[:50]}"))
+            elif isinstance(n, ast.AugAssign) and is_elem(n.value):
+                probs.append((n.lineno, f"arithmetic on an item: {ast.unparse(n)[:50]}"))
+        return probs
+
     def mutable_defaults(self, fn: Fn):
         probs = []
         a = fn.node.args
@@ -466,7 +507,8 @@ def obligations(prop, repo=REPO, rules=("frame", "purity", "clock")):
         detail = what if not probs else "; ".join(f"{fn.mod}:{l}: {w}" for l, w in probs[:3])
         o = Ob(id=f"{prop}/static/{fn.key.replace('prtpy/', '')}/{rule}", tier="static", status=st, function=fn.key, solver="static", detail=detail)
         if probs:
-            o.witness = {"obligation": o.id, "function": fn.key, "sites": [{"line": l, "what": w} for l, w in probs]}
+            o.witness = {"obligation": o.id, "function": fn.key, "sites": [{"line": l, "what": w} for l, w in probs],
+                         "site_key": " ; ".join(sorted({w for l, w in probs}))}          # (without line numbers: a listed known finding is matched on it)
         obs.append(o)
     for fn in sorted(A.fns.values(), key=lambda f: f.key):
         if "frame" in rules:
@@ -486,6 +528,10 @@ def obligations(prop, repo=REPO, rules=("frame", "purity", "clock")):
             ib = A.interface_breaches(fn)
             if ib is not None:
                 ob(fn, "C06:bins-used-only-through-the-manager-interface", ib, "bins-arrays are only passed to binner methods, stored, returned or deep-copied")
+        if "opacity" in rules and ("/partitioning/" in fn.mod or "/packing/" in fn.mod or fn.mod.endswith("inclusion_exclusion_tree.py")) and "adaptors" not in fn.mod:
+            op = A.opacity_breaches(fn)
+            if op is not None:
+                ob(fn, "C07:items-are-opaque(only-valueof-looks-inside)", op, "no arithmetic, numeric comparison, sum or keyless sort on the elements of `items`")
         if "clock" in rules:
             cp = A.clock(fn)
             if cp is not None:
